@@ -22,7 +22,7 @@ TRUSTED = ["lean/PystogVerif/Model/Workflow.lean is a hand-written state machine
            "generated code; tied to /repo by the op-sequence correspondence (all master dictionaries after every step)"]
 RSF = ["g(r)", "G(r)", "GK(r)"]
 SHORT = {"g(r)": "g", "G(r)": "G", "GK(r)": "GK"}
-OPS = ["T", "F", "L", "KF", "KG", "rho:=;T", "bcoh:=;T"]
+OPS = ["T", "F", "L", "KF", "KG", "rho:=;T", "bcoh:=;T", "rgrid:="]
 
 
 def gen(rng, i, tier):
@@ -41,6 +41,10 @@ def gen(rng, i, tier):
     if rng.random() < 0.35:
         for _ in range(int(rng.integers(1, 3))):
             ops.insert(int(rng.integers(1, len(ops) + 1)), int(rng.integers(5, 7)))
+    # 25%: the r-grid settings (Rmax, Rdelta) are changed in between *without* transforming again (op 7): curves already stored keep
+    # the grid they were computed on; a later explicit transform uses the new grid
+    if rng.random() < 0.25:
+        ops.insert(int(rng.integers(1, len(ops) + 1)), 7)
     cutoff = float(rng.uniform(0.6, 2.0))
     rdelta = float(rng.choice([0.1, 0.2, 0.25]))
     cutkind = "ordinary"
@@ -51,7 +55,7 @@ def gen(rng, i, tier):
     return dict(qzero=qzero, cutkind=cutkind, q=tolist(q), s=tolist(s), rsf=int(rng.integers(0, 3)), rho=float(10 ** rng.uniform(-2, -0.5)), bcoh=float(rng.uniform(0.5, 6)),
                 lowq=bool(rng.random() < 0.4), cutoff=cutoff, rmin=rmin, rmax=float(rng.uniform(3, 6)),
                 rdelta=rdelta, ops=ops, nops=nops, rho2=float(10 ** rng.uniform(-2, -0.5)), bcoh2=float(rng.uniform(0.5, 6)),
-                retuned=any(o >= 5 for o in ops),
+                retuned=any(o >= 5 for o in ops), rmax2=float(rng.uniform(3, 6)), rdelta2=float(rng.choice([0.1, 0.2, 0.25, 0.05])),
                 qwin=(None if rng.random() < 0.6 else
                       [float(rng.choice([0.0, 0.1])), float(rng.choice([q[-1] + 5.0, q[-1] - 0.003, q[len(q) // 2] + 0.004, q[-1]]))]))
 
@@ -106,6 +110,8 @@ def apply(st, op):
         st.transform_merged()
     elif op in (5, 6):
         st.transform_merged()
+    elif op == 7:
+        pass
     elif op == 1:
         return st.fourier_filter()
     elif op == 2:
@@ -149,8 +155,22 @@ def evaluate(case):
                     kw["<b_coh>^2"] = case["bcoh2"]
                 r0, g0, _ = getattr(tr, f"S_to_{X}")(q, s, st.dr, lorch=False, **kw)
                 ref = getattr(ff, f"{X}_using_S")(r0, g0, q, s, case["cutoff"], lorch=False, OmittedXrangeCorrection=case["lowq"], **kw)
+            if op == 7:
+                # halve-or-so the grid: same number of points as often as not, so that a stale pairing of a stored curve with the new
+                # grid is a wrong value rather than an exception
+                st.rmax, st.rdelta = case["rmax2"], case["rdelta2"]
+                if st.gr_title not in st.gr_master:
+                    r0, g0, _ = getattr(tr, f"S_to_{X}")(q, s, st.dr, lorch=False, **kw)
+                    ref = getattr(ff, f"{X}_using_S")(r0, g0, q, s, case["cutoff"], lorch=False, OmittedXrangeCorrection=case["lowq"], **kw)
+            if op == 0:
+                r0, g0, _ = getattr(tr, f"S_to_{X}")(q, s, st.dr, lorch=False, **kw)
+                ref = getattr(ff, f"{X}_using_S")(r0, g0, q, s, case["cutoff"], lorch=False, OmittedXrangeCorrection=case["lowq"], **kw)
             qc, sc_, rc, gc = cur(st)
-            ret = apply(st, op)
+            try:
+                ret = apply(st, op)
+            except Exception as ex:  # noqa: BLE001
+                fails.append(f"step {k} ({OPS[op]}): raises {type(ex).__name__} (history {[OPS[t] for t in case['ops'][:k]]})")
+                break
             if not (np.array_equal(st.q_master[st.sq_title], q) and np.array_equal(st.sq_master[st.sq_title], s)):
                 fails.append(f"step {k} ({OPS[op]}): the merged S(Q) was overwritten")
                 break
